@@ -4,7 +4,7 @@
    (i) values: any arity / any number of operands; (ii) inplace_function: all histories, any number of wrappers
    and targets; (iii) value categories: the quantified types ty = {const?} x {none, &, &&} ARE the whole finite
    domain (4 expression categories, 6 element / parameter kinds), argument lists and tuples of any length. *)
-From Tetl Require Import Lib.Base C20.Model C20.Spec C20.ProofsVal C20.ProofsCat C20.ProofsFn.
+From Tetl Require Import Lib.Base C20.Model C20.Spec C20.ProofsVal C20.ProofsCat C20.ProofsFn C20.ProofsCtor C20.ProofsTcat.
 Local Open Scope Z_scope.
 
 (** (i) pair relations = lexicographic order *)
@@ -171,6 +171,15 @@ Theorem C20_reset_empties : forall stateless n s w, inv s -> (w < n)%nat ->
 Proof. exact reset_empties. Qed.
 Print Assumptions C20_reset_empties.
 
+(* [func.wrap.func.con]: a null function pointer or null member pointer is not a target (after the fix) *)
+Theorem C20_null_function_pointer_is_empty : forall stateless n s w, inv s -> (w < n)%nat ->
+  (exists s', step_m stateless n s (OAssignNullFn w) = Good (s', TAck) /\ inv s' /\ abs_slot s' w = None /\
+              (forall i, i <> w -> abs_slot s' i = abs_slot s i)) /\
+  (exists s', step_m stateless n s (OCtorNullFn w) = Good (s', TAck) /\ inv s' /\ abs_slot s' w = None /\
+              (forall i, i <> w -> abs_slot s' i = abs_slot s i)).
+Proof. exact null_fn_empties. Qed.
+Print Assumptions C20_null_function_pointer_is_empty.
+
 Theorem C20_bool_reports_empty : forall stateless n s w, inv s -> (w < n)%nat ->
   step_m stateless n s (OBool w) = Good (s, TBool (match abs_slot s w with None => false | Some _ => true end)).
 Proof. exact bool_reports_empty. Qed.
@@ -237,12 +246,28 @@ Theorem C20_pair_assign_table : forall dk sk sc, assignable_kind dk -> assignabl
   pair_assign_m dk sk sc = pair_assign_spec dk sk sc.
 Proof. exact pair_assign_agrees. Qed.
 Print Assumptions C20_pair_assign_table.
-(* tuple_cat: any number of operands, any arities, any element kinds, any operand categories: every element is
-   copied or moved exactly as [tuple.creation] prescribes *)
+(* tuple_cat: any number of operands, any arities, any element kinds, any operand categories: the fold over
+   forward_as_tuple followed by the construction of tuple_cat_result_t copies, moves or re-binds every element exactly as
+   [tuple.creation] prescribes (and is ill-formed exactly when one element cannot be initialised) *)
 Theorem C20_tuple_cat_transfer : forall ts, Forall (fun o : toperand => is_cat (fst o)) ts ->
   tuple_cat_t_m ts = tuple_cat_t_spec ts.
 Proof. exact tuple_cat_t_agrees. Qed.
 Print Assumptions C20_tuple_cat_transfer.
+(* the result TYPE: the declared element types of all operands in order (references and const kept; a nested tuple
+   stays one element) -- the code after the fix of the CTAD-built result *)
+Theorem C20_tuple_cat_result_type : forall ts, tuple_cat_result_m ts = tuple_cat_result_spec ts.
+Proof. exact tuple_cat_result_agrees. Qed.
+Print Assumptions C20_tuple_cat_result_type.
+Theorem C20_tuple_cat_result_kind : forall k, cat_result_kind_m k = cat_result_kind_spec k.
+Proof. exact cat_result_kind_agrees. Qed.
+Print Assumptions C20_tuple_cat_result_kind.
+Theorem C20_tuple_cat_nested : forall n, cat_single_nested_arity_m n = cat_single_nested_arity_spec n.
+Proof. exact cat_single_nested_agrees. Qed.
+Print Assumptions C20_tuple_cat_nested.
+(* tuple_element_t<I, tuple<Ts...>> keeps cv-qualifiers and references (after the fix of get_type) *)
+Theorem C20_tuple_element_kind : forall k, tuple_element_kind_m k = tuple_element_kind_spec k.
+Proof. exact tuple_element_kind_agrees. Qed.
+Print Assumptions C20_tuple_element_kind.
 
 (* construction / assignment over element types {int, const int, int&, const int&, int&&, move-only, copy-only} *)
 Theorem C20_pair_construct_assign_matrix : forall a b : elem, pair_traits_m a b = pair_traits_spec a b.
@@ -261,17 +286,6 @@ Print Assumptions C20_not_fn_static.
 Theorem C20_make_pair_member_types : forall w, make_pair_member_m w = make_pair_member_spec w.
 Proof. exact make_pair_member_agree. Qed.
 Print Assumptions C20_make_pair_member_types.
-
-(* known finding KF-C20-tuple_cat-ctad: the result TYPE of tuple_cat comes from class template argument deduction *)
-Theorem C20_tuple_cat_result_kind_refuted : exists k, cat_result_kind_m k <> cat_result_kind_spec k.
-Proof. exact cat_result_kind_refuted. Qed.
-Print Assumptions C20_tuple_cat_result_kind_refuted.
-Theorem C20_tuple_cat_result_kind_plain : forall k, k = mkty false RNone -> cat_result_kind_m k = cat_result_kind_spec k.
-Proof. exact cat_result_kind_plain. Qed.
-Print Assumptions C20_tuple_cat_result_kind_plain.
-Theorem C20_tuple_cat_nested_refuted : exists n, cat_single_nested_arity_m n <> cat_single_nested_arity_spec n.
-Proof. exact cat_single_nested_refuted. Qed.
-Print Assumptions C20_tuple_cat_nested_refuted.
 
 (* known findings KF-C20-tuple-structured-binding / KF-C20-get-by-type: missing pieces of the tuple protocol *)
 Theorem C20_tuple_structured_binding_refuted : tuple_structured_binding_m <> tuple_structured_binding_spec.
@@ -302,7 +316,8 @@ Example C20_nonvacuous_cat :
   is_cat LV /\ wf_recv (RcvObj RV) /\ assignable_kind (mkty false RL)
   /\ (tuple_get_m RV (mkty false RL) = Some LV /\ tuple_get_m CLV (mkty false RL) = Some LV
       /\ tuple_cat_t_m [(LV, [(mkty false RNone, 1)]); (RV, [(mkty false RNone, 2); (mkty false RL, 3)])]
-         = Some [(1, false); (2, true); (3, false)]).
+         = Some [(1, Constructed false); (2, Constructed true); (3, Aliased)]
+      /\ tuple_cat_t_m [(LV, [(mkty false RR, 1)])] = None).
 Proof.
   split; [reflexivity|]. split; [reflexivity|]. split; [split; [reflexivity|discriminate]|].
   vm_compute. repeat split; reflexivity.
